@@ -926,6 +926,25 @@ func famStreams(dir string, seed int64, tier string) {
 		g := &idGen{}
 		allowFail := i%3 == 0
 		p := randProc(r, g, 1+r.Intn(4), allowFail)
+		if i%4 == 1 {
+			// directed: a Tee on top of a plain source with nested side sinks (sequences of run-to-end sinks,
+			// sinks that finish before the source ends, value collectors followed by more values)
+			src := &procSpec{kind: "tokens", ts: smallTokens(r, 7)}
+			if r.Intn(2) == 0 {
+				src.cont = &procSpec{kind: "tokens", ts: smallTokens(r, 4)}
+			}
+			p = &procSpec{kind: "tee", subs: []*procSpec{src}}
+			if r.Intn(2) == 0 {
+				p.cont = &procSpec{kind: "tokens", ts: smallTokens(r, 3)}
+			}
+			for j, m := 0, 1+r.Intn(2); j < m; j++ {
+				a := randSink(r, g, 2, false, false, 6)
+				if a.nilAtBuild() {
+					a = randLeafSink(r, g, false, 6)
+				}
+				p.sinks = append(p.sinks, a)
+			}
+		}
 		rc := newRecorder()
 		built := p.build(rc)
 		ts, err := collect(&built)
@@ -949,6 +968,41 @@ func famStreams(dir string, seed int64, tier string) {
 				}
 			} else if err != nil || !tokensExactEq(ts, want) {
 				repP.violate("C13", "combinator-not-transparent", fmt.Sprintf("got (%v) [%s], the combinators' definition gives [%s]", err, descTokens(ts), descTokens(want)), desc)
+			}
+		}
+		// Tee at the top of the term: the downstream sees what it would see without the side sinks, and each side
+		// sink sees what Copy would deliver to it from the Tee's source - the end-of-stream signal included, offered
+		// until every side sink has finished (reference interpreter of the sink protocol; no AltSink, no failures)
+		if p.kind == "tee" && !p.hasKind("decode") && !hasSinks(p.subs[0]) && !hasSinks(p.cont) {
+			noAlt := true
+			for _, sk := range p.sinks {
+				if sk.hasAlt() || sk.nilAtBuild() {
+					noAlt = false
+				}
+			}
+			srcTs, srcFails := p.subs[0].den()
+			all, fails := p.den()
+			if noAlt && !fails && !srcFails {
+				wantLogs, wantFail, _ := refCopy(srcTs, false, p.sinks)
+				if !wantFail {
+					repP.count("tee-oracle")
+					if err != nil || !tokensExactEq(ts, all) {
+						repP.violate("C13", "combinator-not-transparent", fmt.Sprintf("downstream of a Tee got (%v) [%s], without the side sinks it is [%s]", err, descTokens(ts), descTokens(all)), desc)
+					}
+					for id, wl := range wantLogs {
+						var got []*sb.Token
+						if cv, ok := rc.cv[id]; ok {
+							for i := range *cv {
+								got = append(got, &(*cv)[i])
+							}
+						} else {
+							got = rc.logs[id]
+						}
+						if !sameLog(got, wl) {
+							repP.violate("C14", "tee-side-sink-delivery", fmt.Sprintf("side sink %d of a Tee saw [%s], the reference interpreter of the sink protocol gives [%s]", id, descLog(got), descLog(wl)), desc)
+						}
+					}
+				}
 			}
 		}
 		wP.add(fmt.Sprintf("ProcCase %s %s %s %s", p.coq(), coqTokens(ts), classOf(err), coqLogs(rc)), desc, p.kind != "tokens")
